@@ -120,7 +120,12 @@ Close(p) == /\ pc[p] = "close" /\ UNCHANGED <<fin, tmp, loc, res>> /\ Step(p, "c
             /\ Goto(p, IF "dir_remove_then_rename" \in Deviations THEN "scan" ELSE "rename")
 \* _rmdir(final): scandir; unlink each listed file; rmdir - every error ignored
 Scan(p) == /\ pc[p] = "scan" /\ UNCHANGED <<fin, tmp, loc, res>> /\ Step(p, "scandir")
-           /\ Goto(p, IF fin[CurK(p)].ex THEN (IF fin[CurK(p)].out # 0 THEN "unlink" ELSE "rmdir") ELSE "rename")
+           /\ Goto(p, IF ~fin[CurK(p)].ex THEN "rename"
+                      ELSE IF "dir_delete_in_place" \notin Deviations THEN "away"
+                      ELSE IF fin[CurK(p)].out # 0 THEN "unlink" ELSE "rmdir")
+\* (the old entry is renamed to a staging name in one step, and removed from there)
+Away(p) == /\ pc[p] = "away" /\ fin' = [fin EXCEPT ![CurK(p)] = NoDir] /\ Goto(p, "rename")
+           /\ UNCHANGED <<tmp, loc, res>> /\ Step(p, "rename-away")
 Unlink(p) == /\ pc[p] = "unlink" /\ fin' = [fin EXCEPT ![CurK(p)].out = 0] /\ Goto(p, "rmdir")
              /\ UNCHANGED <<tmp, loc, res>> /\ Step(p, "unlink")
 Rmdir(p) == /\ pc[p] = "rmdir" /\ Goto(p, "rename") /\ UNCHANGED <<tmp, loc, res>> /\ Step(p, "rmdir")
@@ -213,7 +218,7 @@ Kill(p) == /\ CRASH /\ pc[p] # "done" /\ ~dead[p]
            /\ dead' = [dead EXCEPT ![p] = TRUE] /\ Goto(p, "done") /\ Step(p, "KILL")
            /\ UNCHANGED <<fin, tmp, loc, res>>
 
-Act(p) == \/ Mkdir(p) \/ Creat(p) \/ Write(p) \/ Close(p) \/ Scan(p) \/ Unlink(p) \/ Rmdir(p) \/ Rename(p) \/ Prune(p)
+Act(p) == \/ Mkdir(p) \/ Creat(p) \/ Write(p) \/ Close(p) \/ Scan(p) \/ Away(p) \/ Unlink(p) \/ Rmdir(p) \/ Rename(p) \/ Prune(p)
           \/ Stat(p) \/ PopRead(p) \/ DelAway(p) \/ DScan(p) \/ DUnlink(p) \/ DRmdir(p)
           \/ CList(p) \/ CUnlink(p) \/ CRmdir(p) \/ Open(p) \/ List(p) \/ HasInput(p) \/ KeysDone(p) \/ Lookup(p)
 Next == \E p \in 1..NP : (Act(p) /\ UNCHANGED dead) \/ Kill(p)
